@@ -102,5 +102,142 @@ def judge (v : Value) (want : Ty) (r : Value) : List String :=
   (if resolvedIn v.ty r.ty then [] else ["resolves"]) ++
   (if want.isDyn || passThroughShape v r then [] else ["pass-through"])
 
+/-! ## Well-typed values (what every value built through cty's constructors is) -/
+
+mutual
+/-- the payload is one the type can have, at every depth: constructors match,
+tuple / object widths match, object keys are the attribute names, at most one
+marker layer per node.  (Known non-null values never have the placeholder type.) -/
+def wtP : Ty → Payload → Bool
+  | _, .null => true
+  | _, .unk _ => true
+  | t, .marked _ r => !r.isMarked && wtP t r
+  | .bool, .b _ => true
+  | .number, .n _ => true
+  | .string, .s _ => true
+  | .capsule _, .caps => true
+  | .list e, .seq ps => wtAll e ps
+  | .set e, .sset ids ps => ids.length == ps.length && wtAll e ps
+  | .map e, .smap ks ps => ks.length == ps.length && wtAll e ps
+  | .tuple ts, .seq ps => wtZip ts ps
+  | .object ns ts _, .smap ks ps => ks == ns && wtZip ts ps
+  | _, _ => false
+termination_by structural _ p => p
+def wtAll : Ty → List Payload → Bool
+  | _, [] => true
+  | e, p :: ps => wtP e p && wtAll e ps
+termination_by structural _ ps => ps
+def wtZip : List Ty → List Payload → Bool
+  | [], [] => true
+  | t :: ts, p :: ps => wtP t p && wtZip ts ps
+  | _, _ => false
+termination_by structural _ ps => ps
+end
+
+/-- a well-formed value: well-formed type without optional-attribute annotations
+(C06), payload of that type -/
+def Value.wt (v : Value) : Bool := v.ty.wf && !v.ty.hasOpt && wtP v.ty v.v
+
+mutual
+/-- every set inside the value has a known length (`Length().IsKnown()`): it has at
+most one member or no unknown member at any depth -/
+def setsLenKnown : Payload → Bool
+  | .marked _ r => setsLenKnown r
+  | .seq ps => setsLenKnownL ps
+  | .smap _ ps => setsLenKnownL ps
+  | .sset _ ps => (ps.length ≤ 1 || Payload.whollyKnownL ps) && setsLenKnownL ps
+  | _ => true
+def setsLenKnownL : List Payload → Bool
+  | [] => true
+  | p :: ps => setsLenKnown p && setsLenKnownL ps
+end
+
+/-! ## Regular type pairs
+
+`dynamicReplace` computes the type of the result for a null or unknown input; its
+doc comment says it "assumes that in and out are compatible".  `regular inT out`
+spells that assumption out, position by position (the positions `dynamicReplace`
+itself pairs up), for a placeholder-free `out`: an object target faces a map or an
+object, a tuple target a tuple that is at least as long.  It also asks that the
+optional attributes of an object target that faces a *map* carry no optional
+annotation inside their own type (conversionMapToObject fills a missing one with a
+null of that type as written). -/
+mutual
+def regular : (inT out : Ty) → Bool
+  | inT, out =>
+    if inT.isDyn then true
+    else match out with
+      | .map oe =>
+        match inT with
+        | .map ie => regular ie oe
+        | .object _ its _ => its.all fun it => regular it oe
+        | _ => true
+      | .list oe | .set oe =>
+        match inT with
+        | .list ie | .set ie => regular ie oe
+        | .tuple its => its.all fun it => regular it oe
+        | _ => true
+      | .object on ots oo =>
+        match inT with
+        | .map ie => regularAll ie ots && optFlat ots oo
+        | .object inn its ios => regularObj inn its ios on ots
+        | _ => false
+      | .tuple ots =>
+        match inT with
+        | .tuple its => decide (ots.length ≤ its.length) && regularZip its ots
+        | _ => false
+      | _ => true
+termination_by structural _ out => out
+def regularAll : Ty → List Ty → Bool
+  | _, [] => true
+  | ie, o :: os => regular ie o && regularAll ie os
+termination_by structural _ os => os
+def regularObj : List String → List Ty → List Bool → List String → List Ty → Bool
+  | inn, its, ios, n :: ns, o :: os =>
+    (match Ty.find n inn its ios with
+     | some (it, _) => regular it o
+     | none => true) && regularObj inn its ios ns os
+  | _, _, _, _, _ => true
+termination_by structural _ _ _ _ os => os
+def regularZip : List Ty → List Ty → Bool
+  | it :: its, o :: os => regular it o && regularZip its os
+  | _, _ => true
+termination_by structural _ os => os
+/-- optional attributes carry no optional annotation inside -/
+def optFlat : List Ty → List Bool → Bool
+  | t :: ts, o :: os => (!o || !t.hasOpt) && optFlat ts os
+  | _, _ => true
+termination_by structural ts => ts
+end
+
+/-! ## What the theorems assume of the parameters -/
+
+/-- laws of the `unify` parameter used by the C08 theorems (both are statements
+about unify.go that property C09 owns; the harness probes them on the real
+`convert.Unify / UnifyUnsafe`):
+* types that are all the same unify to that type;
+* the unified type is as compatible with a target (in the sense of `regular`) as
+  the types it was unified from. -/
+structure UnifyLaws (E : Env) : Prop where
+  same : ∀ (uns : Bool) (t : Ty) (ts : List Ty), ts ≠ [] → (∀ x ∈ ts, x = t) →
+    t.wf = true → t.hasOpt = false → E.unify uns ts = some t
+  repl : ∀ (ts : List Ty) (u oe : Ty), E.unifyG true ts = some u →
+    (∀ t ∈ ts, regular t oe = true) → regular u oe = true
+
+/-- the set parameters never panic or report an error (they may be `.unmodelled`) -/
+structure SetLaws (E : Env) : Prop where
+  hash_ok : ∀ t p, (∃ h, E.hash t p = .ok h) ∨ E.hash t p = .unmodelled
+  equiv_ok : ∀ t a b, (∃ r, E.equiv t a b = .ok r) ∨ E.equiv t a b = .unmodelled
+
+/-- the simplest environment satisfying the laws: types unify only when they are all
+the same; every member hashes to bucket 0 and members are equivalent when identical -/
+def Env.simple : Env :=
+  { unify := fun _ ts => match ts with
+      | [] => none
+      | t :: rest => if rest.all (fun x => x.equals t) then some t else none
+    hash := fun _ _ => .ok 0
+    equiv := fun _ a b => .ok (a == b)
+    less := fun _ _ _ => false }
+
 end Convert
 end CtyModel
